@@ -122,7 +122,33 @@ func renamings(r *rand.Rand, ids []string) []map[string]string {
 		}
 	}
 	out = append(out, m)
+	// 6. names whose concatenations collide ("a"+"ab" == "aa"+"b"): catches keys built by gluing two ids together
+	out = append(out, ambiguousNames(r, ids))
 	return out
+}
+
+// ambiguousNames maps ids injectively to strings over {a,b} of length 1..4 (30 strings; more ids get a numeric suffix).
+func ambiguousNames(r *rand.Rand, ids []string) map[string]string {
+	var pool []string
+	for l := 1; l <= 4; l++ {
+		for k := 0; k < 1<<l; k++ {
+			b := make([]byte, l)
+			for i := range b {
+				b[i] = "ab"[(k>>i)&1]
+			}
+			pool = append(pool, string(b))
+		}
+	}
+	r.Shuffle(len(pool), func(i, j int) { pool[i], pool[j] = pool[j], pool[i] })
+	m := map[string]string{}
+	for i, id := range ids {
+		if i < len(pool) {
+			m[id] = pool[i]
+		} else {
+			m[id] = fmt.Sprintf("%s%d", pool[i%len(pool)], i)
+		}
+	}
+	return m
 }
 
 func init() {
@@ -130,8 +156,8 @@ func init() {
 		ID:    "C08",
 		Title: "Node IDs are opaque",
 		Count: counts(4000, 50000),
-		Rule: "graphs with long edges (F9, F1, F3, F11) x all cells except greedy-random (network simplex positioner over-sampled) x 5 injective renamings per case: V1..Vk and NE0..NEk (the helper " +
-			"alphabets autog mints itself), a permutation of the same names, hostile strings (empty, 10 kB, unicode, control characters), mixed; oracle: Layout(rename(G)) must equal " +
+		Rule: "graphs with long edges (F9, F1, F3, F11) x all cells except greedy-random (network simplex positioner over-sampled) x 6 injective renamings per case: V1..Vk and NE0..NEk (the helper " +
+			"alphabets autog mints itself), a permutation of the same names, hostile strings (empty, 10 kB, unicode, control characters), mixed, strings over {a,b} whose concatenations collide; oracle: Layout(rename(G)) must equal " +
 			"rename(Layout(G)) byte for byte, size-map keys renamed too; mismatches are charged only if both sides are self-consistent; " +
 			"non-trivial = the layout contains a helper node (long edge) or uses the network simplex positioner",
 		MinNontrivial: counts(1000, 12000),
@@ -184,7 +210,7 @@ func init() {
 				ropts := renameOpts(c.Opts, m)
 				got := core.Run(redges, ropts)
 				want := core.Canon(renameLayout(base.Layout, m))
-				kind := []string{"V-alphabet", "NE-alphabet", "permutation", "hostile-strings", "mixed"}[ri%5]
+				kind := []string{"V-alphabet", "NE-alphabet", "permutation", "hostile-strings", "mixed", "ambiguous-concatenation"}[ri%6]
 				if got.Panic != nil {
 					if !selfConsistent(c.Edges, c.Opts, 4) {
 						return skipped("C07")
